@@ -194,6 +194,8 @@ static void caseC07(uint64_t idx, vh::Rng& g)
 	int ref = rm::refIncl(a, b, al);
 	account(al, a, b, kind, ref);
 	bool small = a.states().size() <= 6 && b.states().size() <= 6 && maxTuples(b) <= 9;
+	// a fifth of the cases: BDD operands are RESULTS of language-preserving operations
+	int derive = g.chance(1, 5) ? 1 + static_cast<int>(g.below(3)) : 0; if (derive) R->count("derived-operands");
 	int expl = -1;
 	R->phase("expl/up");
 	try { Aut x = loadText<Aut>(sa), y = loadText<Aut>(sb); expl = inclProtocol(x, y, SELS[0], false) ? 1 : 0; } catch (std::exception&) { }
@@ -207,7 +209,9 @@ static void caseC07(uint64_t idx, vh::Rng& g)
 		if (small) for (int pre = 0; pre < 2; ++pre)
 		{
 			std::string nm = sel + (pre ? "/presanitised" : ""); R->phase(nm);
-			try { SharedDict sd; auto x = loadText<BDDTopDownTreeAut>(sa, sd), y = loadText<BDDTopDownTreeAut>(sb, sd); judge("C07", nm, inclProtocol(x, y, s, pre), ref, expl); }
+			try { SharedDict sd; auto x = loadText<BDDTopDownTreeAut>(sa, sd), y = loadText<BDDTopDownTreeAut>(sb, sd);
+			      if (derive == 1) { x = x.RemoveUselessStates(); y = y.RemoveUselessStates(); } else if (derive == 2) { x = x.RemoveUnreachableStates(); y = y.RemoveUnreachableStates(); } else if (derive == 3) { x = BDDTopDownTreeAut::Union(x, x); y = BDDTopDownTreeAut::Union(y, y); }
+			      judge("C07", nm, inclProtocol(x, y, s, pre), ref, expl); }
 			catch (std::exception& e) { R->violation("C07/" + nm + "/exception", e.what()); }
 		}
 		// with a simulation: supplied the way the library itself does it in the bottom-up path
@@ -239,7 +243,9 @@ static void caseC07(uint64_t idx, vh::Rng& g)
 	for (int pre = 0; pre < 2; ++pre)
 	{
 		std::string nm = std::string("bdd-bu/up") + (pre ? "/presanitised" : ""); R->phase(nm);
-		try { SharedDict sd; auto x = loadText<BDDBottomUpTreeAut>(sa, sd), y = loadText<BDDBottomUpTreeAut>(sb, sd); judge("C07", nm, inclProtocol(x, y, SELS[0], pre), ref, expl); }
+		try { SharedDict sd; auto x = loadText<BDDBottomUpTreeAut>(sa, sd), y = loadText<BDDBottomUpTreeAut>(sb, sd);
+		      if (derive == 1) { x = x.RemoveUselessStates(); y = y.RemoveUselessStates(); } else if (derive == 2) { x = x.RemoveUnreachableStates(); y = y.RemoveUnreachableStates(); } else if (derive == 3) { x = BDDBottomUpTreeAut::Union(x, x); y = BDDBottomUpTreeAut::Union(y, y); }
+		      judge("C07", nm, inclProtocol(x, y, SELS[0], pre), ref, expl); }
 		catch (std::exception& e) { R->violation("C07/" + nm + "/exception", e.what()); }
 	}
 	{	// upward "with simulation": identity is a valid upward simulation preorder
